@@ -238,6 +238,99 @@ def rule_attr_validation_reach(ctx):
     ctx.floor("get_meta_info call sites", n, 3)
 
 
+# the positions in which each derive accepts each legacy parameter, as documented in impl/doc/*.md and audited on the
+# pinned tree: (file, function) -> {position: parameters}
+ATTR_POSITIONS = {
+    ("impl/src/error.rs", "allowed_attr_params"): {"enum_": ["ignore"], "struct_": ["ignore"], "variant": ["ignore"], "field": ["ignore", "source", "backtrace"]},
+    ("impl/src/is_variant.rs", "expand"): {"enum_": ["ignore"], "struct_": ["ignore"], "variant": ["ignore"], "field": ["ignore"]},
+    ("impl/src/mul_assign_like.rs", "expand"): {"enum_": [], "struct_": ["forward"], "variant": [], "field": []},
+    ("impl/src/mul_like.rs", "expand"): {"enum_": [], "struct_": ["forward"], "variant": [], "field": []},
+    ("impl/src/try_into.rs", "expand"): {"enum_": ["ignore", "owned", "ref", "ref_mut"], "struct_": ["ignore", "owned", "ref", "ref_mut"], "variant": ["ignore", "owned", "ref", "ref_mut"], "field": ["ignore"]},
+    ("impl/src/try_unwrap.rs", "expand"): {"enum_": ["ignore", "owned", "ref", "ref_mut"], "struct_": ["ignore"], "variant": ["ignore", "owned", "ref", "ref_mut"], "field": ["ignore"]},
+    ("impl/src/unwrap.rs", "expand"): {"enum_": ["ignore", "owned", "ref", "ref_mut"], "struct_": ["ignore"], "variant": ["ignore", "owned", "ref", "ref_mut"], "field": ["ignore"]},
+    ("impl/src/utils.rs", "State::new"): {"enum_": [], "struct_": [], "variant": [], "field": []},
+    ("impl/src/utils.rs", "State::with_field_ignore"): {"enum_": ["ignore"], "struct_": ["ignore"], "variant": ["ignore"], "field": ["ignore"]},
+    ("impl/src/utils.rs", "State::with_field_ignore_and_forward"): {"enum_": ["ignore", "forward"], "struct_": ["ignore", "forward"], "variant": ["ignore", "forward"], "field": ["ignore", "forward"]},
+    ("impl/src/utils.rs", "State::with_field_ignore_and_refs"): {"enum_": ["ignore", "owned", "ref", "ref_mut"], "struct_": ["ignore", "owned", "ref", "ref_mut"], "variant": ["ignore", "owned", "ref", "ref_mut"], "field": ["ignore", "owned", "ref", "ref_mut"]},
+}
+POSITIONS = ("enum_", "struct_", "variant", "field")
+
+
+def _vec_strs(e):
+    e = A.peel(e)
+    if A.kind(e) == "Expr::Macro" and A.path_last(e["mac"]["path"] if "mac" in e else e["path"]) == "vec":
+        return re.findall(r'"([^"]*)"', A.render(e))
+    r = A.render(e)
+    if re.fullmatch(r"vec!\(.*\)|vec!\[.*\]", r):
+        return re.findall(r'"([^"]*)"', r)
+    return None
+
+
+def rule_legacy_positions(ctx):
+    """ATTR-POS: for every derive built on the legacy attribute parser, the parameters accepted at each position (enum, struct, variant, field) are the documented ones: the `AttrParams` each expander constructs - through `AttrParams::new` (all four positions), `AttrParams::struct_` (the struct position only), `AttrParams::default()` (none) or a literal - is evaluated through the constructors' own definitions and compared with the audited table. `AttrParams::new(vec!["forward"])` for `AttrParams::struct_(..)` in mul_like makes `struct W(#[mul(forward)] i32)` compile with the attribute silently ignored (and disagree with MulAssign)."""
+    uf = ctx.files[UTILS]
+    # the constructors' own meaning, read from their bodies
+    ctors = {}
+    for g in A.functions(uf):
+        if g.qual in ("AttrParams::new", "AttrParams::struct_") and g.block is not None:
+            lit = next((x for x, _ in A.find(g.block, "Expr::Struct") if A.path_last(x["path"]) == "AttrParams"), None)
+            prm = [A.pat_idents(p_["0"]["pat"]) for p_ in g.node["sig"]["inputs"] if A.kind(p_) == "FnArg::Typed"]
+            if lit is None or len(prm) != 1 or len(prm[0]) != 1:
+                raise A.AnchorLost(f"{UTILS}::{g.qual}", "one parameter and an AttrParams literal")
+            pn = prm[0][0]
+            m = {}
+            for fv in lit["fields"]:
+                nm = fv["member"]["0"]["sym"]
+                r = A.render(fv["expr"])
+                m[nm] = "param" if r in (pn, pn + ".clone()") else ([] if _vec_strs(fv["expr"]) == [] or r in ("vec!()", "Vec::new()") else None)
+            ctors[g.qual.split("::")[1]] = m
+    if set(ctors) != {"new", "struct_"} or any(set(m) != set(POSITIONS) or None in m.values() for m in ctors.values()):
+        raise A.AnchorLost(f"{UTILS}::AttrParams", f"constructors not understood: {ctors}")
+    seen = set()
+    for rel, f in sorted(ctx.files.items()):
+        if not rel.startswith("impl/src/"):
+            continue
+        for fn in A.functions(f):
+            if fn.block is None or fn.qual in ("AttrParams::new", "AttrParams::struct_"):
+                continue
+            got = None
+            for c, _ in A.find(fn.block, "Expr::Call"):
+                p_ = A.path_str(c["func"]) if A.kind(c["func"]) == "Expr::Path" else ""
+                if p_ and p_.startswith("AttrParams::"):
+                    k = p_.split("::")[1]
+                    if k == "default":
+                        got = {q: [] for q in POSITIONS}
+                    elif k in ctors and c["args"]:
+                        v = _vec_strs(c["args"][0])
+                        got = {q: (v if ctors[k][q] == "param" else []) for q in POSITIONS} if v is not None else "?"
+                    else:
+                        got = "?"
+            for s_, _ in A.find(fn.block, "Expr::Struct"):
+                if A.path_last(s_["path"]) == "AttrParams":
+                    got = {fv["member"]["0"]["sym"]: _vec_strs(fv["expr"]) for fv in s_["fields"]}
+                    if None in got.values() or set(got) != set(POSITIONS):
+                        got = "?"
+            if got is None:
+                continue
+            key = (rel, fn.qual)
+            seen.add(key)
+            ctx.instance(f"attr-pos:{rel}::{fn.qual}", sample={"site": f"{rel}::{fn.qual}", "positions": got})
+            want = ATTR_POSITIONS.get(key)
+            if want is None:
+                ctx.report(f"attr-pos:new-site:{rel}::{fn.qual}", ctx.where(f, fn.node), f"`{fn.qual}` builds an attribute allow-list that the audited table does not know: {got}", {})
+            elif got == "?" or any(sorted(got[q]) != sorted(want[q]) for q in POSITIONS):
+                diff = {q: (got[q] if got != "?" else "?", want[q]) for q in POSITIONS if got == "?" or sorted(got[q]) != sorted(want[q])}
+                ctx.report(
+                    f"attr-pos:{rel}::{fn.qual}",
+                    ctx.where(f, fn.node),
+                    f"`{fn.qual}` accepts other parameters per position than documented (position: now / documented): {diff} - an attribute is accepted where it has no effect (silently ignored) or refused where it is documented",
+                    {},
+                )
+    missing = set(ATTR_POSITIONS) - seen
+    if missing:
+        raise A.AnchorLost("AttrParams sites", f"audited sites not found: {sorted(missing)}")
+
+
 def _merge_overrides(ctx):
     out = []
     for rel, f in sorted(ctx.files.items()):
